@@ -366,6 +366,13 @@ theorem execS_inv (hd : deep t plan = true) (hb : Below n p) :
     split
     · exact h.congr rfl rfl rfl
     · exact h
+  | .block tag body, st, hr, h => by
+    rw [execS]; split; · exact h
+    simp only [Stmt.rf] at hr
+    exact execL_inv hd hb body st hr h
+  | .opaque tag, st, _, h => by
+    rw [execS]; split; · exact h
+    exact h
 theorem execL_inv (hd : deep t plan = true) (hb : Below n p) :
     ∀ (l : List Stmt) (st : St), rfL l = true → Inv n p st → Inv n p (execL t plan l st)
   | [], st, _, h => by rw [execL]; exact h
